@@ -77,7 +77,7 @@ class Ctx:
             return fnc(*a, **kw)
         except Unestablished as u:
             self.unest(rule, instance, u.what, u.where)
-        except (KeyError, IndexError, TypeError, AttributeError, AssertionError, ValueError) as e:
+        except Exception as e:  # noqa: any failure to interpret a construct fails closed, never crashes the check
             import traceback
             tb = traceback.extract_tb(sys.exc_info()[2])[-1]
             self.unest(rule, instance, "rule could not interpret the construct (%s: %s at %s:%s)"
